@@ -224,6 +224,7 @@ int valloc_available(void) { return 0; }
 /* ---- running one case ---- */
 static __thread sigjmp_buf g_jmp;
 static __thread volatile int g_in_case;
+static unsigned g_watchdog = 60; /* seconds per case in the single-threaded modes; 0 = off */
 static volatile int g_fatal; /* set when the process must stop after the current line */
 static void on_fault(int sig) {
     if (g_in_case) {
@@ -263,12 +264,16 @@ static char *run_case(char *text) {
     if (g_poison) poison_stack(g_poison);
     g_in_case = 1;
     if ((sig = sigsetjmp(g_jmp, 1)) == 0) {
+        if (g_watchdog) alarm(g_watchdog); /* a library call that never returns */
         h(&c);
+        if (g_watchdog) alarm(0);
         g_in_case = 0;
     } else {
+        if (g_watchdog) alarm(0);
         g_in_case = 0;
         valloc_end(NULL);
-        fault = sig == SIGSEGV || sig == SIGBUS ? "segv" : sig == SIGABRT ? "abort" : sig == SIGFPE ? "fpe" : "ill";
+        fault = sig == SIGSEGV || sig == SIGBUS ? "segv" : sig == SIGABRT ? "abort" : sig == SIGFPE ? "fpe"
+                : sig == SIGALRM ? "timeout" : "ill";
     }
     if (g_fatal) {
         /* do not touch the heap any more */
@@ -356,6 +361,9 @@ int main(int argc, char **argv) {
     sigaction(SIGFPE, &sa, NULL);
     sigaction(SIGILL, &sa, NULL);
     sigaction(SIGABRT, &sa, NULL);
+    sigaction(SIGALRM, &sa, NULL);
+    if (threads > 0) g_watchdog = 0; /* alarm() is per process */
+    if (getenv("VDRV_WATCHDOG")) g_watchdog = (unsigned)atoi(getenv("VDRV_WATCHDOG"));
     char *outbuf = malloc(1 << 20);
     setvbuf(stdout, outbuf, _IOFBF, 1 << 20);
     read_cases(argv[ai]);
